@@ -61,6 +61,15 @@ func c10Scenarios(tier string) []*Scenario {
 			scs = append(scs, sc)
 		}
 	}
+	// a probe command that does not end with an exit code of its own (it is killed by a signal; the same holds for
+	// one that is killed when its time-out expires): that is a failed probe like any other
+	for _, pol := range policies {
+		for _, ans := range [][]string{{"sigkill"}, {"sigkill", "ok"}, {"ok", "sigkill", "sigkill"}, {"sigkill", "fail", "ok"}, {"ok", "ok", "sigkill", "ok"}} {
+			for _, daemon := range []bool{false, true} {
+				scs = append(scs, c10Scenario(2, pol, 0, ans, "none", daemon))
+			}
+		}
+	}
 	// daemon with a liveness probe
 	for _, pol := range policies {
 		for _, ans := range [][]string{{"ok", "fail", "fail"}, {"fail", "fail"}, {"ok", "ok", "fail", "ok", "fail", "fail"}} {
